@@ -543,6 +543,71 @@ theorem indent_inv (b : Buf) (x y : Int) (n : Nat) : Inv (indent b x y n) := by
 theorem unindent_inv (sp) (b : Buf) (x y : Int) (n : Nat) : Inv (unindent sp b x y n) := by
   unfold unindent; exact setCursor_inv _ _
 
+theorem transformWord_inv (sp) (f) (b b' : Buf) (h : Inv b) (hb : transformWord sp f b = some b') :
+    Inv b' := by
+  unfold transformWord at hb
+  split at hb
+  · cases hb
+  · cases hb
+    unfold Inv at *
+    simp
+    omega
+theorem transformWords_inv (sp) (f) (n : Nat) (b : Buf) (h : Inv b) :
+    Inv (transformWords sp f n b) := by
+  induction n generalizing b with
+  | zero => simpa [transformWords]
+  | succ n ih =>
+    unfold transformWords
+    split
+    · exact h
+    · rename_i b' hb; exact ih b' (transformWord_inv sp f b b' h hb)
+theorem transposeChars_inv (b : Buf) (h : Inv b) : Inv (transposeChars b) := by
+  unfold transposeChars
+  split
+  · exact h
+  · split
+    · exact swap_inv _ h
+    · exact swap_inv _ (setCursor_inv _ _)
+
+/-- the case-transform commands (M-u, M-l, M-c) replace exactly the characters up to the end of
+    the following word by `f` of them; nothing else changes. -/
+theorem transformWord_frame (sp) (f) (b b' : Buf) (hb : transformWord sp f b = some b') :
+    ∃ pos, findNextWordEnding sp b = some pos ∧
+      b'.text = b.text.take b.cur ++ f ((b.text.drop b.cur).take pos) ++ b.text.drop (b.cur + pos) ∧
+      b'.cur = b.cur + (f ((b.text.drop b.cur).take pos)).length := by
+  unfold transformWord at hb
+  split at hb
+  · cases hb
+  · rename_i pos hpos
+    cases hb
+    exact ⟨pos, hpos, rfl, rfl⟩
+
+/-- no following word: the command does nothing at all -/
+theorem transformWords_none (sp) (f) (n : Nat) (b : Buf) (h : findNextWordEnding sp b = none) :
+    transformWords sp f n b = b := by
+  cases n with
+  | zero => rfl
+  | succ n => simp [transformWords, transformWord, h]
+
+/-- `Esc <n> Backspace` / `Esc <n> Delete`: exactly min(|n|, available) characters on the side
+    selected by the sign of the argument are removed and returned (corollary of the two specs). -/
+theorem backwardDeleteChar_spec (b : Buf) (h : Inv b) (arg : Int) :
+    (0 ≤ arg → backwardDeleteChar b arg = deleteBefore b arg.toNat) ∧
+    (arg < 0 → backwardDeleteChar b arg = delete b (-arg).toNat) := by
+  unfold backwardDeleteChar
+  constructor
+  · intro h0; have : ¬ arg < 0 := by omega
+    simp [this]
+  · intro h0; simp [h0]
+theorem deleteChar_spec (b : Buf) (h : Inv b) (arg : Int) :
+    (0 ≤ arg → deleteChar b arg = delete b arg.toNat) ∧
+    (arg < 0 → deleteChar b arg = deleteBefore b (-arg).toNat) := by
+  unfold deleteChar
+  constructor
+  · intro h0; have : ¬ arg < 0 := by omega
+    simp [this]
+  · intro h0; simp [h0]
+
 /-- every single operation keeps the cursor inside the text -/
 theorem step_inv (sp : Char → Bool) (f : Text → Text) (b : Buf) (h : Inv b) (op : Op) :
     Inv (step sp f b op).1 := by
@@ -561,6 +626,15 @@ theorem step_inv (sp : Char → Bool) (f : Text → Text) (b : Buf) (h : Inv b) 
   · exact trRegion_inv _ _ h _ _
   · exact indent_inv _ _ _ _
   · exact unindent_inv _ _ _ _ _
+  · unfold backwardDeleteChar; split
+    · exact delete_inv _ h _
+    · exact deleteBefore_inv _ h _
+  · unfold deleteChar; split
+    · exact deleteBefore_inv _ h _
+    · exact delete_inv _ h _
+  · unfold selfInsert; exact insertText_inv _ _ _ _
+  · exact transposeChars_inv _ h
+  · exact transformWords_inv _ _ _ _ h
 
 /-- after every finite sequence of edit operations the cursor is within `0..len(text)` -/
 theorem run_inv (sp : Char → Bool) (f : Text → Text) (ops : List Op) (b : Buf) (h : Inv b) :
